@@ -38,9 +38,9 @@ func stressMain(args []string) {
 	out := map[string]any{"mode": *mode, "rounds": *rounds, "workers": *workers}
 	switch *mode {
 	case "mutators":
-		out["problems"] = append(stressMutators(*rounds, *workers, *seed), stressResetWindow(*rounds/10+3)...)
+		out["problems"] = append(append(stressMutators(*rounds, *workers, *seed), stressResetWindow(*rounds/20+2)...), stressSetMutexWindow(*rounds/10+3)...)
 	case "queries":
-		out["problems"] = stressQueries(*rounds, *workers, *seed)
+		out["problems"] = append(stressQueries(*rounds, *workers, *seed), stressDeepEqual(*rounds/10+2, *workers)...)
 	case "options":
 		out["problems"] = stressOptions(*rounds, *workers, *seed)
 	}
@@ -163,6 +163,8 @@ func stressMutators(rounds, workers int, seed uint64) []string {
 					case 8:
 						if r.Pct(10) {
 							s.Reverse()
+						} else if r.Pct(40) {
+							s.SetMutex() // the s.SetMutex().Push(x) idiom: asking again changes nothing
 						}
 					}
 				}
@@ -319,6 +321,158 @@ func stressResetWindow(rounds int) []string {
 					round, popV, popOK, insOK, got, s.Len()))
 			}
 		}()
+	}
+	return problems
+}
+
+// stressSetMutexWindow: a push policy runs inside Push's critical section, so
+// never twice at the same time - also while other goroutines keep asking for
+// the mutex that is already there (SetMutex on a mutex-enabled stack is a
+// no-op).  Four producers push 40 values each through a policy that dwells a
+// little; two bystanders call SetMutex in a loop.
+func stressSetMutexWindow(rounds int) []string {
+	var problems []string
+	for round := 0; round < rounds; round++ {
+		s := stk.Basic()
+		if round%2 == 1 {
+			s.SetFIFO(true)
+		}
+		s.SetMutex()
+		var inside, worst int32
+		s.SetPushPolicy(func(...any) error {
+			n := atomic.AddInt32(&inside, 1)
+			for {
+				w := atomic.LoadInt32(&worst)
+				if n <= w || atomic.CompareAndSwapInt32(&worst, w, n) {
+					break
+				}
+			}
+			time.Sleep(300 * time.Microsecond)
+			atomic.AddInt32(&inside, -1)
+			return nil
+		})
+		var stop int32
+		var wg, bw sync.WaitGroup
+		var pmu sync.Mutex
+		guard := func(who string) {
+			if r := recover(); r != nil {
+				pmu.Lock()
+				problems = append(problems, fmt.Sprintf("setmutex round %d: panic in %s: %v", round, who, r))
+				pmu.Unlock()
+			}
+		}
+		for b := 0; b < 2; b++ {
+			bw.Add(1)
+			go func() {
+				defer bw.Done()
+				defer guard("SetMutex")
+				for atomic.LoadInt32(&stop) == 0 {
+					s.SetMutex()
+					runtime.Gosched()
+				}
+			}()
+		}
+		const producers, each = 4, 40
+		for w := 0; w < producers; w++ {
+			wg.Add(1)
+			go func(w int) {
+				defer wg.Done()
+				defer guard("Push")
+				for i := 0; i < each; i++ {
+					s.Push(w*1000 + i)
+				}
+			}(w)
+		}
+		finished := make(chan bool, 1)
+		go func() { wg.Wait(); atomic.StoreInt32(&stop, 1); bw.Wait(); finished <- true }()
+		select {
+		case <-finished:
+		case <-time.After(90 * time.Second):
+			return append(problems, fmt.Sprintf("setmutex round %d: pushes against SetMutex did not finish within 90s (deadlock)", round))
+		}
+		if w := atomic.LoadInt32(&worst); w > 1 {
+			problems = append(problems, fmt.Sprintf("setmutex round %d: %d pushes were inside the critical section at the same time", round, w))
+		}
+		if s.Len() != producers*each {
+			problems = append(problems, fmt.Sprintf("setmutex round %d: %d of %d pushed values are there", round, s.Len(), producers*each))
+		}
+	}
+	return problems
+}
+
+// stressDeepEqual: many goroutines compare deep structures at the same time and
+// dwell inside the comparison (the innermost Stack has an equality policy that
+// takes a moment): each gets the answer it gets alone.  The depths add up to
+// far more than any one comparison's depth, so anything that is counted or
+// cached across calls in flight shows.
+func stressDeepEqual(rounds, workers int) []string {
+	var problems []string
+	chain := func(depth int, slow bool, last any) stk.Stack {
+		inner := stk.Or().Push("bottom", last)
+		if slow {
+			inner.SetEqualityPolicy(func(a, b any) error { time.Sleep(3 * time.Millisecond); return nil })
+		}
+		cur := inner
+		for d := 0; d < depth; d++ {
+			if d%4 == 3 {
+				cur = stk.And().Push(d, stk.Cond("k", stk.Eq, cur))
+			} else {
+				cur = stk.And().Push(d, cur)
+			}
+		}
+		return cur
+	}
+	for round := 0; round < rounds; round++ {
+		depth := 60 + 10*(round%3)
+		a, b := chain(depth, true, "x"), chain(depth, true, "x")
+		small1, small2 := chain(4, false, "y"), chain(4, false, "y")
+		diff1, diff2 := chain(depth, false, "p"), chain(depth, false, "q")
+		alone := []bool{a.IsEqual(b) == nil, small1.IsEqual(small2) == nil, diff1.IsEqual(diff2) == nil}
+		if !alone[0] || !alone[1] || alone[2] {
+			problems = append(problems, fmt.Sprintf("deep-equal round %d: alone the answers are %v, want [true true false]", round, alone))
+			continue
+		}
+		var wg sync.WaitGroup
+		var pmu sync.Mutex
+		for w := 0; w < workers+4; w++ {
+			wg.Add(1)
+			go func(w int) {
+				defer wg.Done()
+				defer func() {
+					if r := recover(); r != nil {
+						pmu.Lock()
+						problems = append(problems, fmt.Sprintf("deep-equal round %d: panic: %v", round, r))
+						pmu.Unlock()
+					}
+				}()
+				for i := 0; i < 4; i++ {
+					var got bool
+					var which int
+					switch (w + i) % 4 {
+					case 0, 1:
+						got, which = a.IsEqual(b) == nil, 0
+					case 2:
+						got, which = small1.IsEqual(small2) == nil, 1
+					default:
+						got, which = diff1.IsEqual(diff2) == nil, 2
+					}
+					if got != alone[which] {
+						pmu.Lock()
+						if len(problems) < 10 {
+							problems = append(problems, fmt.Sprintf("deep-equal round %d: comparison %d answered %v among %d concurrent callers, %v alone", round, which, got, workers+4, alone[which]))
+						}
+						pmu.Unlock()
+					}
+				}
+			}(w)
+		}
+		finished := make(chan bool, 1)
+		go func() { wg.Wait(); finished <- true }()
+		select {
+		case <-finished:
+		case <-time.After(90 * time.Second):
+			return append(problems, fmt.Sprintf("deep-equal round %d: the comparisons did not finish within 90s", round))
+		}
 	}
 	return problems
 }
